@@ -499,10 +499,45 @@ def shipped_patterns():
     return out
 
 
+def thread_texts(rng, n):
+    out = []
+    for kl, t in valid_corpus(None, rng, n):
+        out.append(t)
+        out.append(t[:rng.randint(1, max(1, len(t) - 1))])
+        out.append(mutate(rng, t))
+    out += [t for t in CURATED if len(t) < 400][:n]
+    return list(dict.fromkeys(out))
+
+
+def check_threads(ctx, texts=None, rounds=3):
+    """Reading is a function of the text: several threads reading at once
+    (the same texts, in different orders) must each get what a lone read
+    gets -- the same query type, or the same RING error with the same
+    message and position."""
+    from vmon.core import threads as TH
+    from pgradd.RINGParser import Read
+    if texts is None:
+        texts = thread_texts(ctx.sub_rng('c09thr', ctx.shard),
+                             12 if ctx.tier == 'quick' else 60)
+
+    def make_jobs():
+        def job(t):
+            def thunk():
+                return type(Read(t)).__name__
+            return thunk
+        return [(t, job(t)) for t in texts]
+    res = TH.stress(make_jobs, nthreads=4, rounds=rounds)
+    bad = [m['key'] for m in res['mismatches']][:12]
+    TH.judge(ctx, res, 'RING Read', {'what': 'thread stress',
+                                     'texts': bad or texts[:3]})
+
+
 def run_shard(ctx):
     setup()
     rng = ctx.sub_rng('c09', ctx.shard)
     q = ctx.tier == 'quick'
+    if ctx.shard % 4 == 2:
+        check_threads(ctx)
     # curated
     for i, t in enumerate(CURATED):
         if ctx.mine(i):
@@ -557,6 +592,10 @@ def run_shard(ctx):
 
 def replay(ctx, case):
     setup()
+    if case.get('what') == 'thread stress':
+        pool = thread_texts(ctx.sub_rng('c09thr', 0), 12)
+        return check_threads(ctx, list(dict.fromkeys(
+            list(case.get('texts') or []) + pool)), rounds=12)
     check_text(ctx, case['text'], case.get('klass', 'replay'))
 
 
